@@ -137,18 +137,23 @@ DATA = {
 BAD = [{"a": "notint"}, {"zzz": 1}, 12345678901234567890123, "NOPE", None, [1, 2], {"r": {"z": "x"}}]
 
 
-def snapshot(o):
-    """Deep snapshot of a schema / datum argument; the named-schema dictionary a parsed
-    schema points to is exempt (it is the caller-supplied dictionary being filled)."""
-    def strip(x):
+def snapshot(o, named=False):
+    """Deep snapshot of a schema / datum argument.  For parse calls the named-schema dictionary a parsed
+    schema points to is exempt (it is the caller-supplied dictionary being filled); for every other call
+    (named=True) the table of a parsed schema handed in is part of the argument: its names and definitions
+    must come out unchanged."""
+    def strip(x, top=False):
         if isinstance(x, dict):
-            return {k: strip(v) for k, v in x.items() if k != "__named_schemas"}
+            out = {k: strip(v) for k, v in x.items() if k != "__named_schemas"}
+            if named and top and isinstance(x.get("__named_schemas"), dict):
+                out["__named_schemas"] = {k: strip(v) for k, v in sorted(x["__named_schemas"].items())}
+            return out
         if isinstance(x, list):
             return [strip(v) for v in x]
         if isinstance(x, tuple):
             return tuple(strip(v) for v in x)
         return x
-    return json.dumps(canon(strip(o)), default=str)
+    return json.dumps(canon(strip(o, top=True)), default=str)
 
 
 class History:
@@ -537,10 +542,11 @@ def _full_history_job(base, descs):
     tampered = None
     for i, d in enumerate(descs):
         watch = [n for n in (d.get("schema"), d.get("datum"), d.get("records"), d.get("reader"), d.get("meta")) if isinstance(n, str) and n in E]
-        before = {n: snapshot(E[n]) for n in watch}
+        nm = d["op"] != "parse"
+        before = {n: snapshot(E[n], nm) for n in watch}
         obs.append(ops.apply(F, d, E))
         for n in watch:
-            if snapshot(E[n]) != before[n] and tampered is None:
+            if snapshot(E[n], nm) != before[n] and tampered is None:
                 tampered = (i, n, jsonable(E[n]))
     return obs, tampered
 
@@ -648,11 +654,12 @@ def _history_job(base, descs):
     tampered = None
     for i, d in enumerate(descs):
         watch = [n for n in (d.get("schema"), d.get("datum"), d.get("records"), d.get("reader"), d.get("meta")) if isinstance(n, str) and n in E]
-        before = {n: snapshot(E[n]) for n in watch}
+        nm = d["op"] != "parse"
+        before = {n: snapshot(E[n], nm) for n in watch}
         obs = ops.apply(F, d, E)
         if i == len(descs) - 1:
             for n in watch:
-                if snapshot(E[n]) != before[n]:
+                if snapshot(E[n], nm) != before[n]:
                     tampered = n
     return obs, tampered
 
